@@ -103,7 +103,8 @@ def run_tlc(module, cfg, scratch, env=None, workers=1, timeout=900, xmx="4g", ex
     e = dict(os.environ)
     if env:
         e.update(env)
-    cmd = ["java", "-XX:+UseParallelGC", "-Xss512m", "-Xmx" + xmx, "-cp", JAR, "tlc2.TLC",
+    # TLC unpacks its standard modules into java.io.tmpdir and leaves the directory behind: keep it inside the scratch copy
+    cmd = ["java", "-XX:+UseParallelGC", "-Xss512m", "-Xmx" + xmx, "-Djava.io.tmpdir=" + d, "-cp", JAR, "tlc2.TLC",
            "-workers", str(workers), "-metadir", os.path.join(d, "meta"), "-config", cfg] + (extra or []) + [module]
     t0 = time.time()
     try:
